@@ -26,6 +26,11 @@ Proof.
   - destruct (3 <? c)%Z eqn:F; repeat split; intros; lia.
 Qed.
 
+(** * Upstream context *)
+Lemma upstream_deadline_bound caller :
+  upstream_deadline caller = forward_query_timeout /\ (upstream_deadline caller <= 5000000000)%Z.
+Proof. unfold upstream_deadline, forward_query_timeout. split; [reflexivity|lia]. Qed.
+
 (** * Targets *)
 Lemma targets_length r c n : length (targets r c n) = c.
 Proof. unfold targets. rewrite map_length, seq_length. reflexivity. Qed.
